@@ -437,6 +437,63 @@ theorem all_adapters_history_partial (ps : Nat) (hps : 1 ≤ ps) (U : Path → P
       | download n => exact local_refines U hU root fs hi _ ho.2 ho.1 rfl
       | downloadStream n c sink => exact local_refines U hU root fs hi _ ho.2 ho.1 rfl
 
+/-! ## the S3 adapter and the wall clock -/
+
+/-- the clocks of the adapter and of the service agree up to the service's window when the call is made -/
+abbrev ClockOk (skew : Nat) (t : Timed) : Prop := withinSkew skew t.client t.server = true
+
+/-- **Every request the adapter prepares is accepted as far as time goes**, at every clock reading (any date, any time of
+day): `x-amz-date`, the credential-scope date and the date of the signing key come from one reading of the clock, so the only
+thing the service can object to is the distance between the two clocks. -/
+theorem s3_stamp_accepted (skew : Nat) (client server : Time) (h : withinSkew skew client server = true) :
+    s3Accepts skew server (s3Stamp client) = true := by
+  rw [s3Accepts_stamp]; exact h
+
+/-- **What an S3 call returns does not depend on when it is made**: for every state, operation and pair of clock readings
+inside the window, the timed adapter model does what the untimed one does. -/
+theorem s3_clock_independent (skew ps : Nat) (s : S3) (t : Timed) (h : ClockOk skew t) :
+    S3.stepT skew ps s t = S3.step ps s t.op :=
+  S3.stepT_of_within skew ps s t h
+
+/-- **One long-lived S3 adapter object, every clock schedule**: however the wall clock moves between (and during) the calls
+of a history — standing still, crossing any number of UTC date changes, stepping back — as long as the two clocks agree up to
+the service's window at every call, the history returns, operation by operation, what the name-to-bytes map returns. -/
+theorem s3_timed_history_refines (skew ps : Nat) (hps : 1 ≤ ps) (ts : List Timed)
+    (hclock : ∀ t ∈ ts, ClockOk skew t)
+    (hs3 : ∀ t ∈ ts, NameOk (fun n => hasDotSegment n = false) t.op ∧ ChunkOk t.op) :
+    SpecRun Spec.empty (ts.map (·.op)) (MapStore.abs (S3.runT skew ps [] ts).1) (S3.runT skew ps [] ts).2 := by
+  rw [S3.runT_eq skew ps [] ts hclock]
+  refine (history_refines (S3.step ps) MapStore.abs MapStore.Inv
+    (fun op => NameOk (fun n => hasDotSegment n = false) op ∧ ChunkOk op)
+    (fun s op hi ho => s3_refines ps hps s hi op ho.1 ho.2) [] List.nodup_nil (ts.map (·.op)) ?_).2
+  intro op hop
+  obtain ⟨t, ht, rfl⟩ := List.mem_map.mp hop
+  exact hs3 t ht
+
+/-- forced hypothesis (environment, not a defect): a client whose clock is an hour ahead of the service's has every request
+rejected (403 `RequestTimeTooSkewed`), so nothing is stored -/
+theorem s3_clock_skew_witness :
+    withinSkew 900 (1000000 + 3600) 1000000 = false ∧
+    (S3.stepT 900 1000 [] ⟨1000000 + 3600, 1000000, .upload "a".toList [1]⟩).2 = .error .forbidden ∧
+    (S3.stepT 900 1000 [] ⟨1000000 + 3600, 1000000, .upload "a".toList [1]⟩).1 = [] := by
+  refine ⟨by decide, by decide, by decide⟩
+
+/-- why `s3_stamp_accepted` rests on the ONE reading: a request whose signing key was derived on an earlier day than its
+credential scope says is rejected by the service even when both clocks agree exactly (so the acceptance theorem is not vacuous) -/
+theorem s3_stale_key_rejected (skew : Nat) (now : Time) (keyDay : Nat) (h : keyDay ≠ utcDay now) :
+    s3Accepts skew now { amz := now, scopeDay := utcDay now, keyDay := keyDay } = false := by
+  simp [s3Accepts, h]
+
+/-- non-vacuity: one adapter object, a history that starts at 23:59:58 UTC of day 19 791 and ends on day 19 793 (the client's
+clock 5 s ahead of the service's, a second date change inside the history, one step back across midnight): inside the hypotheses
+of `s3_timed_history_refines`, and what the timed model returns -/
+example :
+    let ts : List Timed := [⟨1710028798 + 5, 1710028798, .upload "a/b".toList [1]⟩, ⟨1710028801 + 5, 1710028801, .upload "a/c".toList [2]⟩,
+      ⟨1710028799, 1710028802, .delete "a/b".toList⟩, ⟨1710115300, 1710115300, .list "a/".toList⟩]
+    (∀ t ∈ ts, ClockOk 900 t) ∧ utcDay 1710028798 + 1 = utcDay 1710028806 ∧ utcDay 1710028799 + 2 = utcDay 1710115300 ∧
+    (S3.runT 900 1 [] ts).2 = [.unit, .unit, .unit, .names ["a/c".toList]] := by
+  refine ⟨by decide, by decide, by decide, by decide⟩
+
 /-- non-vacuity: a concrete universe, a concrete history inside every hypothesis above, and what the three models return -/
 example :
     (runHistory (S3.step 1) [] [.upload "a/b".toList [1], .upload "a/c".toList [2], .delete "a/b".toList, .list "a/".toList]).2
